@@ -254,36 +254,33 @@ c19_probe_files(FILE *f, const char *scratch_dir)
 		abort();
 	rm_all();
 
-	fprintf(f, "/-- io_open_src() run on real file-system objects, the whole finite domain that can be constructed:\n"
-		"    row = [kind (0 reg,1 dir,2 fifo,3 socket,4 missing), reached through a symlink, setuid, setgid, sticky,\n"
-		"    second hard link, --stdout, --force, --keep, result]; result 0 = opened, 1 symlink / 2 directory / 3 not regular /\n"
-		"    4 setuid-setgid / 5 sticky / 6 hard links (warning, skipped), 21 ENOENT / 22 ENXIO / 23 ELOOP / 29 other (error). -/\n");
+	fprintf(f, "/-- io_open_src() run on real file-system objects, over the whole finite domain.\n"
+		"    srcRows[2*kind + symlink] (kind: 0 reg, 1 dir, 2 fifo, 3 socket, 4 missing; symlink: the path is a symlink to it)\n"
+		"    lists the result for index i = 16*bits + 8*multi + flags, bits = 4*setuid + 2*setgid + sticky, multi = second hard link,\n"
+		"    flags = 4*stdout + 2*force + keep. Result: 0 opened; warnings (file skipped) 1 symlink, 2 directory, 3 not regular,\n"
+		"    4 setuid/setgid, 5 sticky, 6 hard links; errors 21 ENOENT, 22 ENXIO, 23 ELOOP, 29 other; 99 = combination that cannot\n"
+		"    be constructed (hard-linked directory, mode bits of a missing file). -/\n");
 	int chunk = 0;
 	for (int kind = 0; kind <= K_MISSING; ++kind)
 	for (int sym = 0; sym <= 1; ++sym) {
-		fprintf(f, "def srcRows%d : List (List Nat) := [", chunk++);
-		bool first = true;
+		fprintf(f, "def srcRows%d : List Nat := [", chunk++);
 		for (unsigned bits = 0; bits < 8; ++bits)
-		for (int multi = 0; multi <= 1; ++multi) {
-			if (kind == K_MISSING && (bits != 0 || multi))
-				continue;
-			if (kind == K_DIR && multi)
-				continue;
-			for (unsigned fl = 0; fl < 8; ++fl) {
+		for (int multi = 0; multi <= 1; ++multi)
+		for (unsigned fl = 0; fl < 8; ++fl) {
+			const unsigned idx = 16 * bits + 8 * (unsigned)multi + fl;
+			int code = 99;
+			if (!((kind == K_MISSING && (bits != 0 || multi)) || (kind == K_DIR && multi))) {
 				const int keep_fd = mk_object(kind, bits, multi, sym);
-				const int code = src_code(c19_open_src(sym ? "l" : "o", (fl & 4) != 0, (fl & 2) != 0, (fl & 1) != 0));
+				code = src_code(c19_open_src(sym ? "l" : "o", (fl & 4) != 0, (fl & 2) != 0, (fl & 1) != 0));
 				if (keep_fd >= 0)
 					close(keep_fd);
 				rm_all();
-				fprintf(f, "%s\n  [%d,%d,%u,%u,%u,%d,%u,%u,%u,%d]", first ? "" : ",", kind, sym,
-						(bits >> 2) & 1, (bits >> 1) & 1, bits & 1, multi,
-						(fl >> 2) & 1, (fl >> 1) & 1, fl & 1, code);
-				first = false;
 			}
+			fprintf(f, "%s%s%d", idx ? "," : "", (idx % 16) ? " " : "\n  ", code);
 		}
 		fprintf(f, "]\n");
 	}
-	fprintf(f, "def srcRows : List (List (List Nat)) := [");
+	fprintf(f, "def srcRows : List (List Nat) := [");
 	for (int i = 0; i < chunk; ++i)
 		fprintf(f, "%ssrcRows%d", i ? ", " : "", i);
 	fprintf(f, "]\n\n");
